@@ -156,4 +156,31 @@ theorem fr_ceil_bounds (a : Fraction) (h : 0 < a.d) : (fr_ceil a - 1) * a.d < a.
   · have : -q * a.d = -(q * a.d) := Int.neg_mul _ _
     omega
 
+theorem fr_trunc_tdiv (a : Fraction) (h : 0 < a.d) : fr_trunc a = Int.tdiv a.n a.d := by
+  unfold fr_trunc fr_floor fr_ceil
+  by_cases hn : 0 ≤ a.n
+  · simp only [ge_iff_le, hn, decide_true, if_true]
+    rw [Int.fdiv_eq_ediv_of_nonneg _ (by omega), Int.tdiv_eq_ediv_of_nonneg hn]
+  · simp only [ge_iff_le, hn, decide_false, Bool.false_eq_true, if_false]
+    rw [Int.fdiv_eq_ediv_of_nonneg _ (by omega), ← Int.tdiv_eq_ediv_of_nonneg (by omega), Int.neg_tdiv, Int.neg_neg]
+
+theorem fr_pow_pos (a : Fraction) (b : Int) (ha : a.d ≠ 0) (hb : 0 < b) :
+    fr_pow_dom a b = true ∧ Canonical (fr_pow a b) ∧
+      (fr_pow a b).n * a.d ^ b.toNat = a.n ^ b.toNat * (fr_pow a b).d := by
+  have hd : a.d ^ b.toNat ≠ 0 := Int.pow_ne_zero ha
+  obtain ⟨h1, h2, h3⟩ := fraction_spec (a.n ^ b.toNat) (a.d ^ b.toNat) hd
+  unfold fr_pow_dom fr_pow
+  have hb' : (decide (b ≥ 0)) = true := by simp; omega
+  have hb0 : ¬ b = 0 := by omega
+  simp only [hb', if_true, h1, hb0, decide_false, Bool.and_false, Bool.not_false, Bool.and_true]
+  exact ⟨by trivial, h2, h3⟩
+
+theorem fr_mod_spec (a b : Fraction) (ha : a.d ≠ 0) (hb : b.d ≠ 0) (hn : b.n ≠ 0) :
+    fr_mod_dom a b = true ∧ Canonical (fr_mod a b) ∧
+      (fr_mod a b).n * (a.d * b.d) = Int.fmod (a.n * b.d) (b.n * a.d) * (fr_mod a b).d := by
+  obtain ⟨h1, h2, h3⟩ := fraction_spec (Int.fmod (a.n * b.d) (b.n * a.d)) (a.d * b.d) (Int.mul_ne_zero ha hb)
+  unfold fr_mod_dom fr_mod
+  have : b.n * a.d ≠ 0 := Int.mul_ne_zero hn ha
+  simp only [h1, Bool.and_true, decide_eq_true_eq, ne_eq]
+  exact ⟨this, h2, h3⟩
 end XrayModel.Conv
